@@ -18,6 +18,7 @@ type c13Spec struct {
 	Variable bool     `json:"variable"`
 	Symbols  []string `json:"symbols"` // as named in the request ("*" allowed)
 	Retyped  bool     `json:"retyped"` // world also holds symbol D whose Volume column is f8 instead of i4
+	Wide     bool     `json:"wide,omitempty"` // world also holds symbol E with one more column (longer records): projected on shared columns a mixed query is well defined
 }
 
 var c13Cols = []string{"Open", "Close", "Volume", "Nope"}
@@ -26,7 +27,7 @@ func init() {
 	mc.Def(mc.Check{
 		ID:    "C13",
 		Level: "exploration",
-		Rule: "symbols A,B,C (same schema, different rows) plus optionally D (same column names, Volume retyped); symbol lists = every non-empty ordered subset of {A,B,C} of size <=3, each also with a missing symbol added, with D added, and '*'; " +
+		Rule: "symbols A,B,C (same schema, different rows) plus optionally D (same column names, Volume retyped) or E (one more column, i.e. longer records); symbol lists = every non-empty ordered subset of {A,B,C} of size <=3, each also with a missing symbol added, with D added, and '*'; " +
 			"column lists = every ordered tuple of length 0-3 over {Open,Close,Volume,Nope} (duplicates, reorderings, unknown names); fixed and variable buckets; " +
 			"every combination goes through DataService.Query and is compared per symbol with the single-symbol query. a case = (record type, symbol list) x all 85 column lists; non-trivial = >=2 existing symbols named",
 		Assume:   []string{"UTC", "BackgroundSync=false", "an explicit error is accepted when the named symbols have different column types (documented limitation) or when every named symbol is missing"},
@@ -57,15 +58,21 @@ func c13Enum(c *mc.Ctx, yield func(c13Spec)) {
 	rec(nil)
 	for _, v := range []bool{false, true} {
 		for _, l := range lists {
-			yield(c13Spec{v, l, false})
-			yield(c13Spec{v, append(append([]string{}, l...), "MISSING"), false})
-			yield(c13Spec{v, append([]string{"MISSING"}, l...), false})
-			yield(c13Spec{v, append(append([]string{}, l...), "D"), true})
+			yield(c13Spec{v, l, false, false})
+			yield(c13Spec{v, append(append([]string{}, l...), "MISSING"), false, false})
+			yield(c13Spec{v, append([]string{"MISSING"}, l...), false, false})
+			yield(c13Spec{v, append(append([]string{}, l...), "D"), true, false})
+			if len(l) <= 2 {
+				yield(c13Spec{Variable: v, Symbols: append(append([]string{}, l...), "E"), Wide: true})
+				yield(c13Spec{Variable: v, Symbols: append([]string{"E"}, l...), Wide: true})
+			}
 		}
-		yield(c13Spec{v, []string{"*"}, false})
-		yield(c13Spec{v, []string{"*"}, true})
-		yield(c13Spec{v, []string{"MISSING"}, false})
-		yield(c13Spec{v, []string{"D"}, true})
+		yield(c13Spec{Variable: v, Symbols: []string{"*"}, Wide: true})
+		yield(c13Spec{Variable: v, Symbols: []string{"E"}, Wide: true})
+		yield(c13Spec{v, []string{"*"}, false, false})
+		yield(c13Spec{v, []string{"*"}, true, false})
+		yield(c13Spec{v, []string{"MISSING"}, false, false})
+		yield(c13Spec{v, []string{"D"}, true, false})
 	}
 }
 
@@ -80,6 +87,9 @@ func c13Build(s c13Spec) (*world.World, error) {
 	syms := []string{"A", "B", "C"}
 	if s.Retyped {
 		syms = append(syms, "D")
+	}
+	if s.Wide {
+		syms = append(syms, "E")
 	}
 	for si, sym := range syms {
 		n := 2 + si
@@ -98,11 +108,15 @@ func c13Build(s c13Spec) (*world.World, error) {
 		if sym == "D" {
 			vol = vf
 		}
+		names, cols := []string{"Open", "Close", "Volume"}, []any{o, cl, vol}
+		if sym == "E" {
+			names, cols = append(names, "Extra"), append(cols, vf)
+		}
 		var err error
 		if s.Variable {
-			err = w.WriteCS(sym+"/1Min/"+attr, csVar(times, []string{"Open", "Close", "Volume"}, []any{o, cl, vol}), true)
+			err = w.WriteCS(sym+"/1Min/"+attr, csVar(times, names, cols), true)
 		} else {
-			err = w.WriteCS(sym+"/1Min/"+attr, csFixed(times, []string{"Open", "Close", "Volume"}, []any{o, cl, vol}), false)
+			err = w.WriteCS(sym+"/1Min/"+attr, csFixed(times, names, cols), false)
 		}
 		if err != nil {
 			w.Close()
@@ -146,7 +160,7 @@ func c13Run(c *mc.Ctx, s c13Spec) {
 	if s.Variable {
 		rt = "variable"
 	}
-	existing := map[string]bool{"A": true, "B": true, "C": true, "D": s.Retyped}
+	existing := map[string]bool{"A": true, "B": true, "C": true, "D": s.Retyped, "E": s.Wide}
 	// single-symbol references
 	single := map[string]*world.Table{}
 	for sym, ok := range existing {
@@ -176,10 +190,13 @@ func c13Run(c *mc.Ctx, s c13Spec) {
 		}
 	}
 	sort.Strings(expSyms)
-	mixed := false
+	mixed, wide := false, false
 	for _, sy := range expSyms {
 		if sy == "D" && len(expSyms) > 1 {
 			mixed = true
+		}
+		if sy == "E" && len(expSyms) > 1 {
+			wide = true
 		}
 	}
 	selClass := "list"
@@ -188,6 +205,8 @@ func c13Run(c *mc.Ctx, s c13Spec) {
 		selClass = "star"
 	case mixed:
 		selClass = "retyped-symbol"
+	case wide:
+		selClass = "wider-symbol"
 	case named["MISSING"]:
 		selClass = "missing-symbol"
 	}
@@ -233,7 +252,7 @@ func c13Run(c *mc.Ctx, s c13Spec) {
 			}
 			// projected on columns that all named symbols share with the same type, a mixed query is well defined
 			mixedMatters := mixed && (len(cols) == 0 || contains(cols, "Volume"))
-			if mixedMatters {
+			if mixedMatters || (wide && len(cols) == 0) {
 				c.Outcome("error:mixed-types")
 				continue
 			}
